@@ -26,8 +26,6 @@ Definition sstep (ss : sstate) (e : sevent) : sstate :=
 (* the premises of one run, relative to the group it goes into *)
 Definition RunOK (h : hstate) (name : N) (ws : list witem) : Prop :=
   WFws ws /\ FpTruth (last_of (gs_of h)) ws /\
-  (forall p m f d dl, In (WFile p m f d) ws -> fsize d <> 0%N -> last_lookup p (last_of (gs_of h)) = Some dl ->
-                      fp_eqb f (d_fp dl) = true -> l_size (d_line dl) <> 0%N) /\
   ~ In name (map (fun x => b_name (fst (fst x))) h).
 
 Definition EventOK (ss : sstate) (e : sevent) : Prop :=
@@ -50,9 +48,9 @@ Proof.
   - destruct (rev ss) as [|h older] eqn:Er; auto.
     assert (Ess : ss = rev older ++ [h]) by (rewrite <- (rev_involutive ss), Er; reflexivity).
     rewrite Ess in Hs. apply Forall_app in Hs as [Ho Hh]. apply Forall_app. split; auto.
-    constructor; [|constructor]. apply Forall_inv in Hh. destruct He as (A & B & C & D). now apply run_HOK.
-  - apply Forall_app. split; auto. constructor; [|constructor]. destruct He as (A & B & C & D).
-    exact (run_HOK [] name ws HOK_nil A B C D).
+    constructor; [|constructor]. apply Forall_inv in Hh. destruct He as (A & B & D). now apply run_HOK.
+  - apply Forall_app. split; auto. constructor; [|constructor]. destruct He as (A & B & D).
+    exact (run_HOK [] name ws HOK_nil A B D).
   - rewrite <- (firstn_skipn k ss) in Hs. now apply Forall_app in Hs as [_ Hs].
 Qed.
 
